@@ -1,6 +1,6 @@
 """C16 — file names and response files reach commands intact (DESIGN 5.16)."""
 from facts import AnalysisBroken
-from model import (dstr, strip, fact_holds, mentions_field, mentions_call, mentions_var,
+from model import (path_value, dstr, strip, fact_holds, mentions_field, mentions_call, mentions_var,
                    mentions_enum, const_value, walk, ret_value_class)
 from rules import (guarded, calls_to, field_writes, who_may_call, full_range, loops_over,
                    every_iteration_passes, basename, origins, is_var, is_enum, lastname,
@@ -120,7 +120,16 @@ def run(ctx):
         if isin:
             ok = 'Edge::inputs_.size()' in cnt and 'Edge::implicit_deps_' in cnt and 'Edge::order_only_deps_' in cnt and cnt.count('-') == 2
             ctx.check('C16.W1', ok, lv.name, '$in:range', lv.where(e), '$in covers the explicit inputs only: count = %s' % cnt)
-            ctx.check('C16.W1', '32' in a[2] and '10' in a[2], lv.name, '$in:separator', lv.where(e), '$in uses space, $in_newline newline')
+            # the separator handed over: ' ' on every path that decided var == "in", '\n' on the others
+            def wrong_sep(ev, facts, e=e):
+                isin_ = [p_ for (k_, p_) in facts if isinstance(k_, str) and '"in"' in k_ and 'operator==' in k_]
+                v = path_value(lv, e['args'][2], facts)
+                if not isin_:
+                    return True
+                return v != (32 if isin_[0] else 10)
+            r = lv.find_path(None, lambda x: x is e, from_succ=lv.entry, hit_ok=wrong_sep)
+            ctx.check('C16.W1', r is None, lv.name, '$in:separator', lv.where(e), '$in uses space, $in_newline newline',
+                      witness=None if r is None else {'blocks': r[0]})
         else:
             ok = 'Edge::outputs_.size()' in cnt and 'Edge::implicit_outs_' in cnt and cnt.count('-') == 1 and 'Edge::outputs_' in a[0]
             ctx.check('C16.W1', ok, lv.name, '$out:range', lv.where(e), '$out covers the explicit outputs only: count = %s' % cnt)
